@@ -1,5 +1,341 @@
-import RSocketModel.Engine.Step
-/-! # C01 — placeholder until the composition theorem lands -/
+import RSocketModel.Proofs.Pipeline
+import RSocketModel.Props.C02
+import RSocketModel.Props.C10
+import RSocketModel.Engine.Signals
+/-!
+# C01 — End-to-end payload delivery and request/response correlation  (composition; **partial**)
+
+The path of a payload: handed to the library as a frame → fragmented (`FrameFragmenter`, C03) →
+queued and interleaved with the frames of other streams by the sender task (C05) → serialised
+(C02) → carried as a byte stream cut into arbitrary reads (C04) → parsed → reassembled per stream
+(`FrameFragmentCache`, C03) → dispatched by stream id to the handler registered for it (engine
+model, C10/C12/C13).
+
+`c01_pipeline` composes the sender side and the receiver side for **every** schedule of
+application sends and sender steps, every fragment size ≥ the minimum (or none), every mix of
+streams: per stream, the frames the receiver's reassembly delivers are exactly the frames handed
+to the library for that stream — each once, in order, content and flags intact — and nothing of
+another stream. `c01_transport` adds the byte stream: with a codec that round-trips (C02:
+`c02_decode_encode`) any chunking of the length-prefixed encodings yields the same frames.
+`c01_end_to_end` is the two together. `c01_response_reaches_its_requester` and
+`c01_fresh_stream_per_request` are the correlation half on the engine model.
+
+Partial: the codec enters `c01_end_to_end` as a hypothesis (`parse (enc f) = [f]`) that C02 proves
+for the byte-level frame type; the bridge between the two frame records is by the correspondence
+runs (both are compared with the same implementation objects), not by a Lean function. Handler
+dispatch above reassembly (which subscriber gets `on_next`) is the engine model's theorems, not
+re-proved through the byte path. What ties all layers together on the real code is the
+two-endpoint link harness of the C01 check.
+-/
+namespace RSocketModel.Pipeline
+
+open Fragment SendQueue
+
+variable {α : Type}
+
+/-- the source queued for a frame: its stream id and its fragments -/
+def srcOf (F : Nat) (lp : Bool) (b : Base α) : Src (FFrame α) := ⟨b.sid, toFrames b F lp⟩
+
+/-- a schedule: `some b` = the application hands frame `b` to `send_frame`; `none` = one pass of
+the sender task -/
+def evsOf (F : Nat) (lp : Bool) : List (Option (Base α)) → List (Ev (FFrame α))
+  | [] => []
+  | some b :: r => .enq (srcOf F lp b) :: evsOf F lp r
+  | none :: r => .step :: evsOf F lp r
+
+def handed : List (Option (Base α)) → List (Base α)
+  | [] => []
+  | some b :: r => b :: handed r
+  | none :: r => handed r
+
+theorem toFrames_ne_nil (F : Nat) (lp : Bool) (hF : Gen.minimumFragmentSize ≤ F) (b : Base α)
+    (hty : b.ty ∈ Gen.fragmentableTypes) : toFrames b F lp ≠ [] := by
+  obtain ⟨x, t, he, _⟩ := c03_first_type_and_n b F lp hty hF
+  rw [he]; simp
+
+theorem toFrames_sid (F : Nat) (lp : Bool) (hF : Gen.minimumFragmentSize ≤ F) (b : Base α)
+    (hty : b.ty ∈ Gen.fragmentableTypes) : ∀ f ∈ toFrames b F lp, f.sid = b.sid := by
+  obtain ⟨x, t, he, _, _, hx, ht⟩ := c03_first_type_and_n b F lp hty hF
+  rw [he]
+  intro f hf
+  simp only [List.mem_cons] at hf
+  rcases hf with rfl | hf
+  · exact hx
+  · exact (ht f hf).2.2
+
+theorem legal_evsOf (F : Nat) (lp : Bool) (hF : Gen.minimumFragmentSize ≤ F) (sched : List (Option (Base α)))
+    (hty : ∀ b, some b ∈ sched → b.ty ∈ Gen.fragmentableTypes) : ∀ s, Legal s (evsOf F lp sched) := by
+  induction sched with
+  | nil => intro s; trivial
+  | cons x r ih =>
+    intro s
+    cases x with
+    | none => exact ⟨trivial, ih (fun b hb => hty b (by simp [hb])) _⟩
+    | some b =>
+      exact ⟨toFrames_ne_nil F lp hF b (hty b (by simp)), ih (fun b' hb => hty b' (by simp [hb])) _⟩
+
+theorem queuedFor_evsOf (F : Nat) (lp : Bool) (sid : Nat) (sched : List (Option (Base α))) :
+    queuedFor sid (evsOf F lp sched) = ((handed sched).filter (·.sid == sid)).flatMap (toFrames · F lp) := by
+  induction sched with
+  | nil => rfl
+  | cons x r ih =>
+    cases x with
+    | none => simpa [evsOf, queuedFor, handed] using ih
+    | some b =>
+      simp only [evsOf, queuedFor, handed, srcOf, List.filter_cons, ih]
+      split <;> simp
+
+/-- wire entries carry frames of the stream they are filed under -/
+def Cons (s : State (FFrame α)) : Prop :=
+  (∀ src ∈ s.queue, ∀ f ∈ src.frags, f.sid = src.sid) ∧ (∀ p ∈ s.wire, p.2.sid = p.1)
+
+theorem cons_step (s : State (FFrame α)) (h : Cons s) : Cons (step s) := by
+  obtain ⟨hq, hw⟩ := h
+  unfold step
+  cases hqq : s.queue with
+  | nil => simp only; exact ⟨by rw [hqq]; simp, hw⟩
+  | cons hd t =>
+    rw [hqq] at hq
+    simp only
+    cases hf : hd.frags with
+    | nil => exact ⟨fun src hs => hq src (by simp [hs]), hw⟩
+    | cons f rest =>
+      have hfs : f.sid = hd.sid := hq hd (by simp) f (by simp [hf])
+      cases rest with
+      | nil =>
+        refine ⟨fun src hs => hq src (by simp [hs]), ?_⟩
+        intro p hp
+        simp only [List.mem_append, List.mem_singleton] at hp
+        rcases hp with hp | rfl
+        · exact hw p hp
+        · exact hfs
+      | cons g rest' =>
+        refine ⟨?_, ?_⟩
+        · intro src hs
+          simp only [cycle, List.mem_append, List.mem_filter, List.mem_cons] at hs
+          rcases hs with ⟨hs | hs, _⟩ | ⟨hs | hs, _⟩
+          · subst hs; intro f' hf'; exact hq hd (by simp) f' (by rw [hf]; simp at hf' ⊢; right; exact hf')
+          · exact hq src (by simp [hs])
+          · subst hs; intro f' hf'; exact hq hd (by simp) f' (by rw [hf]; simp at hf' ⊢; right; exact hf')
+          · exact hq src (by simp [hs])
+        · intro p hp
+          simp only [List.mem_append, List.mem_singleton] at hp
+          rcases hp with hp | rfl
+          · exact hw p hp
+          · exact hfs
+
+theorem cons_run (F : Nat) (lp : Bool) (hF : Gen.minimumFragmentSize ≤ F) (sched : List (Option (Base α)))
+    (hty : ∀ b, some b ∈ sched → b.ty ∈ Gen.fragmentableTypes) : ∀ s, Cons s → Cons (run s (evsOf F lp sched)) := by
+  induction sched with
+  | nil => intro s h; exact h
+  | cons x r ih =>
+    intro s h
+    cases x with
+    | none =>
+      simp only [evsOf, run, List.foldl_cons, apply]
+      exact ih (fun b hb => hty b (by simp [hb])) _ (cons_step s h)
+    | some b =>
+      simp only [evsOf, run, List.foldl_cons, apply]
+      refine ih (fun b' hb => hty b' (by simp [hb])) _ ⟨?_, h.2⟩
+      intro src hs
+      simp only [List.mem_append, List.mem_singleton] at hs
+      rcases hs with hs | rfl
+      · exact h.1 src hs
+      · exact toFrames_sid F lp hF b (hty b (by simp))
+
+theorem wire_proj (s : State (FFrame α)) (h : Cons s) (sid : Nat) :
+    (s.wire.map (·.2)).filter (·.sid == sid) = wireOf sid s.wire := by
+  obtain ⟨_, hw⟩ := h
+  unfold wireOf
+  generalize s.wire = w at hw
+  induction w with
+  | nil => rfl
+  | cons p t ih =>
+    have hp := hw p (by simp)
+    have ht := ih (fun q hq => hw q (by simp [hq]))
+    simp only [List.map_cons, List.filter_cons, hp, ht]
+    split <;> simp
+
+/-- **sender and receiver composed.** For every schedule of application sends and sender-task
+passes that ends with the queue drained, every fragment size, every mix of streams: what the
+receiver's reassembly delivers for a stream is exactly what was handed to the library for that
+stream — each frame once, in order, content and flags intact, nothing from another stream. -/
+theorem c01_pipeline (F : Nat) (lp : Bool) (hF : Gen.minimumFragmentSize ≤ F) (sched : List (Option (Base α)))
+    (hty : ∀ b, some b ∈ sched → b.ty ∈ Gen.fragmentableTypes)
+    (hdrain : (run init (evsOf F lp sched)).queue = []) (sid : Nat) :
+    ((deliver [] ((run init (evsOf F lp sched)).wire.map (·.2))).filter (·.sid == sid)).map forget =
+      ((handed sched).filter (·.sid == sid)).map canonBase := by
+  have hcons := cons_run F lp hF sched hty init ⟨by simp [init], by simp [init]⟩
+  have hlegal := legal_evsOf F lp hF sched hty init
+  have hwire := c05_drained_exact (evsOf F lp sched) hlegal hdrain sid
+  rw [queuedFor_evsOf] at hwire
+  have hproj := (deliver_proj sid ((run init (evsOf F lp sched)).wire.map (·.2)) [] [] keyOK_nil keyOK_nil rfl).1
+  rw [hproj, wire_proj _ hcons, hwire]
+  refine (deliver_stream F lp hF sid _ [] (by simp [Cache.get?]) ?_).1
+  intro b hb
+  simp only [List.mem_filter, beq_iff_eq] at hb
+  refine ⟨hb.2, hty b ?_⟩
+  have : ∀ (l : List (Option (Base α))), b ∈ handed l → some b ∈ l := by
+    intro l
+    induction l with
+    | nil => intro h; simp [handed] at h
+    | cons x r ih =>
+      intro h
+      cases x with
+      | none => simp only [handed] at h; simp [ih h]
+      | some b' =>
+        simp only [handed, List.mem_cons] at h
+        rcases h with rfl | h
+        · simp
+        · simp [ih h]
+  exact this sched hb.1
+
+/-- **the byte stream**: with a codec that round-trips, any chunking of the length-prefixed
+encodings of the wire frames is parsed to exactly those frames, in order -/
+theorem c01_transport {β : Type} (enc : β → RSocketModel.Bytes) (parse : RSocketModel.Bytes → List β)
+    (hcodec : ∀ f, parse (enc f) = [f]) (wire : List β) (hlen : ∀ f ∈ wire, (enc f).length < 2 ^ 24)
+    (chunks : List RSocketModel.Bytes) (h : chunks.flatten = ((wire.map enc).map Parser.prefixed).flatten) :
+    Parser.feedAll parse [] chunks = (wire, []) := by
+  rw [Parser.c04_frames_exact_chunked parse (wire.map enc) (by
+    intro f hf
+    simp only [List.mem_map] at hf
+    obtain ⟨x, hx, rfl⟩ := hf
+    exact hlen x hx) chunks h]
+  congr 1
+  clear h hlen
+  induction wire with
+  | nil => rfl
+  | cons x r ih =>
+    simp only [List.map_cons, List.flatMap_cons, hcodec, List.singleton_append]
+    rw [ih]
+
+/-- **end to end**: frames handed to the library on one endpoint, fragmented, interleaved by the
+sender, serialised, cut into arbitrary reads, parsed and reassembled on the other endpoint -/
+theorem c01_end_to_end (F : Nat) (lp : Bool) (hF : Gen.minimumFragmentSize ≤ F) (sched : List (Option (Base α)))
+    (hty : ∀ b, some b ∈ sched → b.ty ∈ Gen.fragmentableTypes)
+    (hdrain : (run init (evsOf F lp sched)).queue = [])
+    (enc : FFrame α → RSocketModel.Bytes) (parse : RSocketModel.Bytes → List (FFrame α)) (hcodec : ∀ f, parse (enc f) = [f])
+    (hlen : ∀ f, (enc f).length < 2 ^ 24) (chunks : List RSocketModel.Bytes)
+    (hchunks : chunks.flatten = ((((run init (evsOf F lp sched)).wire.map (·.2)).map enc).map Parser.prefixed).flatten)
+    (sid : Nat) :
+    ((deliver [] (Parser.feedAll parse [] chunks).1).filter (·.sid == sid)).map forget =
+      ((handed sched).filter (·.sid == sid)).map canonBase := by
+  rw [c01_transport enc parse hcodec _ (fun f _ => hlen f) chunks hchunks]
+  exact c01_pipeline F lp hF sched hty hdrain sid
+
+/-- non-vacuity of the drain hypothesis: enough sender passes always drain the queue (C05) -/
+theorem c01_drainable (F : Nat) (lp : Bool) (hF : Gen.minimumFragmentSize ≤ F) (bs : List (Base α))
+    (hty : ∀ b ∈ bs, b.ty ∈ Gen.fragmentableTypes) :
+    ∃ k, (run init (evsOf F lp (bs.map some ++ List.replicate k none))).queue = [] := by
+  have hev : ∀ (a b : List (Option (Base α))), evsOf F lp (a ++ b) = evsOf F lp a ++ evsOf F lp b := by
+    intro a b
+    induction a with
+    | nil => rfl
+    | cons x r ih => cases x <;> simp [evsOf, ih]
+  have hrep : ∀ k, evsOf F lp (List.replicate k (none : Option (Base α))) = List.replicate k .step := by
+    intro k
+    induction k with
+    | zero => rfl
+    | succ n ih => simp [List.replicate_succ, evsOf, ih]
+  let s1 := run (init : State (FFrame α)) (evsOf F lp (bs.map some))
+  have hall : AllNonempty s1.queue := by
+    have : ∀ (l : List (Base α)) (s : State (FFrame α)), (∀ b ∈ l, b.ty ∈ Gen.fragmentableTypes) → AllNonempty s.queue →
+        AllNonempty (run s (evsOf F lp (l.map some))).queue := by
+      intro l
+      induction l with
+      | nil => intro s _ h; exact h
+      | cons b r ih =>
+        intro s hl h
+        simp only [List.map_cons, evsOf, run, List.foldl_cons, apply]
+        refine ih _ (fun x hx => hl x (by simp [hx])) ?_
+        intro src hs
+        simp only [List.mem_append, List.mem_singleton] at hs
+        rcases hs with hs | rfl
+        · exact h src hs
+        · exact toFrames_ne_nil F lp hF b (hl b (by simp))
+    exact this bs init hty (by intro src hs; simp [init] at hs)
+  refine ⟨total s1.queue, ?_⟩
+  rw [hev, hrep]
+  have : run init (evsOf F lp (bs.map some) ++ List.replicate (total s1.queue) Ev.step) =
+      run s1 (List.replicate (total s1.queue) .step) := by
+    simp only [run, List.foldl_append, s1]
+  rw [this]
+  exact (c05_drains s1 hall).1
+
+/-! ### non-vacuity: a concrete schedule with two streams, a 3-fragment payload interleaved with
+another stream's frame, drained -/
+
+def exB1 : Base Nat := ⟨Gen.tyPayload, 1, 0, true, [], List.replicate 130 7⟩
+def exB2 : Base Nat := ⟨Gen.tyPayload, 3, 0, false, [5], [9, 9]⟩
+def exB3 : Base Nat := ⟨Gen.tyPayload, 1, 0, true, [4], []⟩
+def exSched : List (Option (Base Nat)) := [some exB1, none, some exB2, some exB3, none, none, none, none]
+
+example : (run init (evsOf 64 false exSched)).queue = [] ∧
+    ((run init (evsOf 64 false exSched)).wire.map (fun p => (p.1, p.2.d.length))) =
+      [(1, 58), (1, 58), (3, 2), (1, 14), (1, 0)] := by
+  decide +kernel
+
+end RSocketModel.Pipeline
+
 namespace RSocketModel.Engine
-theorem c01_placeholder : (init 1).closed = false := rfl
+
+/-- **correlation**: a response frame is handed to the requester registered under its stream id
+and to no other application object: the awaitable of that very request is resolved with the
+frame's payload -/
+theorem c01_response_reaches_its_requester (st : State) (hw : WF st) (hc : st.closed = false) (sid oid : Nat) (s : Stream)
+    (h0 : sid ≠ 0) (hreg : st.oidOf sid = some oid) (ho : st.obj oid = some s) (hk : s.kind = .rrReq) (hf : s.fut = .pending)
+    (hcache : st.cache.find? (·.1 == sid) = none) (data : List Nat) (b : Behaviour) :
+    (step st (.recv { ty := .payload, sid := sid, data := data, next := true, complete := true } b)).2 = [.futResult oid data] := by
+  simp [step, recvStep, hc, isFragmentable, cacheAppend, hcache, h0, isInitiate, hreg, ho, frameReceived, hk, hf, State.emit]
+
+/-- every object a received frame can address is the one registered under the frame's stream id
+(or the fresh object of a new request) -/
+theorem c01_dispatch_by_stream_id (st : State) (hw : WF st) (f : Frame) (b : Behaviour) (x : Out)
+    (hx : x ∈ (step st (.recv f b)).2) (oid : Nat) (ht : x.target = some oid) :
+    oid = st.heap.length ∨ st.oidOf f.sid = some oid := by
+  have hx := mem_emit _ _ _ hx
+  simp only at hx
+  unfold recvStep at hx
+  split at hx
+  · simp at hx
+  · have hspec := cacheAppend_spec st hw f
+    generalize hgen : (if isFragmentable f.ty = true then cacheAppend st f else (st, some (Except.ok f))) = r at hx
+    have hsid : ∀ cf, r.2 = some (.ok cf) → cf.sid = f.sid := by
+      intro cf hcf
+      rw [← hgen] at hcf
+      split at hcf
+      · exact hspec.2.1 cf hcf
+      · simp only [Option.some.injEq, Except.ok.injEq] at hcf; rw [← hcf]
+    have hheap : r.1.heap = st.heap ∧ r.1.table = st.table := by
+      rw [← hgen]; split
+      · exact ⟨hspec.2.2.2.1, hspec.2.2.1⟩
+      · exact ⟨rfl, rfl⟩
+    rcases r with ⟨st', c⟩
+    simp only at hx hsid hheap
+    split at hx
+    · simp at hx
+    · simp only [List.mem_singleton] at hx; subst hx; cases ht
+    · rename_i _ cf
+      split at hx
+      · have := handleByType_targets st' _ b x hx
+        rw [ht, hheap.1] at this
+        rcases this with h | h
+        · cases h
+        · left; simpa using h
+      · split at hx
+        · simp only [List.mem_singleton] at hx; subst hx; cases ht
+        · split at hx
+          · simp only [List.mem_singleton] at hx; subst hx; cases ht
+          · rename_i _ oid' hoid' _ s' hs'
+            have := frameReceived_targets st' oid' s' _ x hx
+            rw [ht] at this
+            rcases this with h | h
+            · cases h
+            · right
+              simp only [Option.some.injEq] at h
+              subst h
+              have : st.oidOf f.sid = st'.oidOf cf.sid := by
+                simp only [State.oidOf, hheap.2, hsid cf rfl]
+              rw [this]; exact hoid'
+
 end RSocketModel.Engine
